@@ -259,10 +259,12 @@ func (f *fakeLiquidWallet) GetAddress() (string, error) {
 	f.blindKeys = append(f.blindKeys, bk)
 	return a, nil
 }
-func (f *fakeLiquidWallet) SendToAddress(string, uint64) (string, error) { return "", errors.New("not used") }
-func (f *fakeLiquidWallet) GetBalance() (uint64, error)                  { return 1 << 40, nil }
-func (f *fakeLiquidWallet) SetLabel(txID, address, label string) error   { return nil }
-func (f *fakeLiquidWallet) Ping() (bool, error)                          { return true, nil }
+func (f *fakeLiquidWallet) SendToAddress(string, uint64) (string, error) {
+	return "", errors.New("not used")
+}
+func (f *fakeLiquidWallet) GetBalance() (uint64, error)                { return 1 << 40, nil }
+func (f *fakeLiquidWallet) SetLabel(txID, address, label string) error { return nil }
+func (f *fakeLiquidWallet) Ping() (bool, error)                        { return true, nil }
 func (f *fakeLiquidWallet) GetFee(txSize int64) (uint64, error) {
 	if f.feeErr {
 		return 0, errors.New("fake liquid wallet: no fee estimate")
